@@ -39,7 +39,8 @@ VARIABLES
   q,        \* tty input queue
   held,     \* cursor queries the terminal has received and not answered yet
   typed,    \* number of script items typed
-  rq,       \* goroutines blocked in read(2) on stdin, in arrival order, 0 = main (Go's fd read lock is FIFO)
+  rq,       \* goroutines blocked in read(2) on stdin: the head holds the fd read lock, 0 = main
+  handoff,  \* the read lock has changed hands since the environment last acted (see Join)
   cq,       \* auxiliary goroutines blocked receiving on a Keys.cursor channel, in arrival order
   buf,      \* Keys.buf
   waiting, reading, gen,
@@ -51,14 +52,22 @@ VARIABLES
   line,     \* key indices consumed by commands so far (arguments included), in order
   sched     \* history: the environment's decisions (exported for replay; not read by any action)
 
-vars == <<script, q, held, typed, rq, cq, buf, waiting, reading, gen, mpc, mnext, mrd, mgen, apc, agen, started, line, sched>>
+vars == <<script, q, held, typed, rq, handoff, cq, buf, waiting, reading, gen, mpc, mnext, mrd, mgen, apc, agen, started, line, sched>>
 
 KeysOf(s) == SelectSeq(s, LAMBDA x : x # 0)
 NR(s) == Len(SelectSeq(s, LAMBDA x : x = 0))
 Without(s, a) == SelectSeq(s, LAMBDA x : x # a)
 
+\* A goroutine asks for the stdin read lock.  Waiters are served in arrival order, but Go does not hand the lock
+\* over: while it is changing hands (a read has just been served) a goroutine that asks for it - typically the one
+\* that just released it and loops - may get it before the waiters that are being woken up.
+\* the waiters of the lock are woken one at a time and re-queue when they lose the race: any of them may be next
+Heads(t) == IF t = <<>> THEN {<<>>} ELSE { <<t[i]>> \o SelectSeq(t, LAMBDA x : x # t[i]) : i \in 1..Len(t) }
+Join(base, g) == rq' \in (IF handoff THEN {Append(base, g), <<g>> \o base} ELSE {Append(base, g)})
+JoinServed(base, g) == rq' \in (Heads(Append(base, g)))
+
 Init == /\ script \in Scripts
-        /\ q = <<>> /\ held = 0 /\ typed = 0 /\ rq = <<>> /\ cq = <<>> /\ buf = <<>>
+        /\ q = <<>> /\ held = 0 /\ typed = 0 /\ rq = <<>> /\ handoff = FALSE /\ cq = <<>> /\ buf = <<>>
         /\ waiting = FALSE /\ reading = FALSE /\ gen = 0
         /\ mpc = "refresh" /\ mnext = "wait" /\ mrd = <<>> /\ mgen = 0
         /\ apc = [a \in Aux |-> "idle"] /\ agen = [a \in Aux |-> 0] /\ started = 0
@@ -72,43 +81,44 @@ Init == /\ script \in Scripts
 MRefresh == /\ mpc \in {"refresh", "acc"}
             /\ held' = held + 1
             /\ mnext' = IF mpc = "acc" THEN "returned" ELSE "wait"
-            /\ mpc' = "gcp" /\ rq' = Append(rq, 0)
-            /\ UNCHANGED <<script, q, typed, cq, buf, waiting, reading, gen, mrd, mgen, apc, agen, started, line, sched>>
+            /\ mpc' = "gcp" /\ Join(rq, 0)
+            /\ UNCHANGED <<script, handoff, q, typed, cq, buf, waiting, reading, gen, mrd, mgen, apc, agen, started, line, sched>>
 
 \* GetCursorPos, direct read served: with a report in it the query is answered (every report in the read is
 \* consumed, keys are kept); without one the keys are kept and the read is repeated
 MGcpServed(d) == IF NR(d) > 0
-                 THEN /\ mpc' = mnext /\ rq' = Tail(rq)
-                 ELSE /\ mpc' = mpc /\ rq' = Append(Tail(rq), 0)
+                 THEN /\ mpc' = mnext /\ rq' \in Heads(Tail(rq))
+                 ELSE /\ mpc' = mpc /\ JoinServed(Tail(rq), 0)
 
 \* WaitAvailableKeys
 MWait == /\ mpc = "wait"
          /\ IF buf # <<>>
             THEN /\ mpc' = "run" /\ UNCHANGED <<waiting, gen, rq>>
-            ELSE /\ waiting' = TRUE /\ gen' = gen + 1 /\ mpc' = "wread" /\ rq' = Append(rq, 0)
-         /\ UNCHANGED <<script, q, held, typed, cq, buf, reading, mnext, mrd, mgen, apc, agen, started, line, sched>>
+            ELSE /\ waiting' = TRUE /\ gen' = gen + 1 /\ mpc' = "wread" /\ Join(rq, 0)
+         /\ UNCHANGED <<script, handoff, q, held, typed, cq, buf, reading, mnext, mrd, mgen, apc, agen, started, line, sched>>
 
 \* readInputFiltered returned: a report found in the read is sent on the current channel
-MFilteredServed(d) == /\ mrd' = d /\ rq' = Tail(rq)
+MFilteredServed(d) == /\ mrd' = d /\ rq' \in Heads(Tail(rq))
                       /\ IF NR(d) > 0
                          THEN /\ mpc' = (IF mpc = "wread" THEN "wsend" ELSE "rksend") /\ mgen' = gen
                          ELSE /\ mpc' = (IF mpc = "wread" THEN "wdone" ELSE "rkdone") /\ mgen' = mgen
 
 \* k.cursor <- cursor: rendezvous with the first goroutine receiving on that very channel
-MSend == /\ mpc \in {"wsend", "rksend"}
+\* (generation 0 is the nil channel Keys starts with: nothing ever passes through it)
+MSend == /\ mpc \in {"wsend", "rksend"} /\ mgen > 0
          /\ \E i \in 1..Len(cq) :
               /\ agen[cq[i]] = mgen
               /\ \A j \in 1..(i - 1) : agen[cq[j]] # mgen
               /\ apc' = [apc EXCEPT ![cq[i]] = "done"]
               /\ cq' = Without(cq, cq[i])
          /\ mpc' = IF mpc = "wsend" THEN "wdone" ELSE "rkdone"
-         /\ UNCHANGED <<script, q, held, typed, rq, buf, waiting, reading, gen, mnext, mrd, mgen, agen, started, line, sched>>
+         /\ UNCHANGED <<script, handoff, q, held, typed, rq, buf, waiting, reading, gen, mnext, mrd, mgen, agen, started, line, sched>>
 
 MWdone == /\ mpc = "wdone"
           /\ IF KeysOf(mrd) = <<>>
-             THEN /\ mpc' = "wread" /\ rq' = Append(rq, 0) /\ UNCHANGED <<buf, waiting>>
+             THEN /\ mpc' = "wread" /\ Join(rq, 0) /\ UNCHANGED <<buf, waiting>>
              ELSE /\ buf' = buf \o KeysOf(mrd) /\ waiting' = FALSE /\ mpc' = "run" /\ rq' = rq
-          /\ UNCHANGED <<script, q, held, typed, cq, reading, gen, mnext, mrd, mgen, apc, agen, started, line, sched>>
+          /\ UNCHANGED <<script, handoff, q, held, typed, cq, reading, gen, mnext, mrd, mgen, apc, agen, started, line, sched>>
 
 \* one command
 MRun == /\ mpc = "run" /\ buf # <<>>
@@ -117,21 +127,24 @@ MRun == /\ mpc = "run" /\ buf # <<>>
              /\ CASE script[i] = "K" -> line' = Append(line, i) /\ mpc' = "refresh" /\ reading' = reading
                   [] script[i] = "V" -> line' = Append(line, i) /\ mpc' = "rk" /\ reading' = TRUE
                   [] script[i] = "E" -> line' = line /\ mpc' = "acc" /\ reading' = reading
-        /\ UNCHANGED <<script, q, held, typed, rq, cq, waiting, gen, mnext, mrd, mgen, apc, agen, started, sched>>
+        \* ReadKey creates the report channel if the shell never waited for a key yet
+        /\ gen' = IF script[Head(buf)] = "V" /\ gen = 0 THEN 1 ELSE gen
+        /\ UNCHANGED <<script, handoff, q, held, typed, rq, cq, waiting, mnext, mrd, mgen, apc, agen, started, sched>>
 
 \* Keys.ReadKey: buffered keys first, else read
 MRk == /\ mpc = "rk"
        /\ IF buf # <<>>
           THEN /\ line' = Append(line, Head(buf)) /\ buf' = Tail(buf) /\ reading' = FALSE /\ mpc' = "refresh" /\ rq' = rq
-          ELSE /\ mpc' = "rkread" /\ rq' = Append(rq, 0) /\ UNCHANGED <<line, buf, reading>>
-       /\ UNCHANGED <<script, q, held, typed, cq, waiting, gen, mnext, mrd, mgen, apc, agen, started, sched>>
+          ELSE /\ mpc' = "rkread" /\ Join(rq, 0) /\ UNCHANGED <<line, buf, reading>>
+       /\ UNCHANGED <<script, handoff, q, held, typed, cq, waiting, gen, mnext, mrd, mgen, apc, agen, started, sched>>
 
+\* ReadKey loops while Keys.buf is empty: keys that another goroutine put there in the meantime count
 MRkdone == /\ mpc = "rkdone"
-           /\ IF KeysOf(mrd) = <<>>
-              THEN /\ mpc' = "rkread" /\ rq' = Append(rq, 0) /\ UNCHANGED <<line, buf, reading>>
-              ELSE LET b == buf \o KeysOf(mrd) IN
-                   /\ line' = Append(line, Head(b)) /\ buf' = Tail(b) /\ reading' = FALSE /\ mpc' = "refresh" /\ rq' = rq
-           /\ UNCHANGED <<script, q, held, typed, cq, waiting, gen, mnext, mrd, mgen, apc, agen, started, sched>>
+           /\ LET b == buf \o KeysOf(mrd) IN
+              IF b = <<>>
+              THEN /\ mpc' = "rkread" /\ Join(rq, 0) /\ UNCHANGED <<line, buf, reading>>
+              ELSE /\ line' = Append(line, Head(b)) /\ buf' = Tail(b) /\ reading' = FALSE /\ mpc' = "refresh" /\ rq' = rq
+           /\ UNCHANGED <<script, handoff, q, held, typed, cq, waiting, gen, mnext, mrd, mgen, apc, agen, started, sched>>
 
 ---------------------------------------------------------------------------
 \* auxiliary redisplay a: GetCursorPos from another goroutine
@@ -140,12 +153,12 @@ MRkdone == /\ mpc = "rkdone"
 ACheck(a) == /\ apc[a] = "check"
              /\ IF waiting \/ reading
                 THEN /\ apc' = [apc EXCEPT ![a] = "recv"] /\ agen' = [agen EXCEPT ![a] = gen] /\ cq' = Append(cq, a) /\ rq' = rq
-                ELSE /\ apc' = [apc EXCEPT ![a] = "read"] /\ rq' = Append(rq, a) /\ UNCHANGED <<agen, cq>>
-             /\ UNCHANGED <<script, q, held, typed, buf, waiting, reading, gen, mpc, mnext, mrd, mgen, started, line, sched>>
+                ELSE /\ apc' = [apc EXCEPT ![a] = "read"] /\ Join(rq, a) /\ UNCHANGED <<agen, cq>>
+             /\ UNCHANGED <<script, handoff, q, held, typed, buf, waiting, reading, gen, mpc, mnext, mrd, mgen, started, line, sched>>
 
 AServed(a, d) == IF NR(d) > 0
-                 THEN /\ apc' = [apc EXCEPT ![a] = "done"] /\ rq' = Tail(rq)
-                 ELSE /\ apc' = [apc EXCEPT ![a] = "check"] /\ rq' = Tail(rq)
+                 THEN /\ apc' = [apc EXCEPT ![a] = "done"] /\ rq' \in Heads(Tail(rq))
+                 ELSE /\ apc' = [apc EXCEPT ![a] = "check"] /\ rq' \in Heads(Tail(rq))
 
 ---------------------------------------------------------------------------
 \* the kernel hands everything queued to the goroutine that holds the read lock
@@ -159,6 +172,7 @@ Serve == /\ q # <<>> /\ rq # <<>>
                    ELSE /\ MFilteredServed(q) /\ UNCHANGED <<buf, apc>>
               ELSE /\ AServed(g, q) /\ buf' = buf \o KeysOf(q)
                    /\ UNCHANGED <<mpc, mrd, mgen>>
+         /\ handoff' = TRUE
          /\ UNCHANGED <<script, held, typed, cq, waiting, reading, gen, mnext, agen, started, line, sched>>
 
 Internal == MRefresh \/ MWait \/ MSend \/ MWdone \/ MRun \/ MRk \/ MRkdone \/ Serve \/ \E a \in Aux : ACheck(a)
@@ -173,6 +187,7 @@ EnvType == /\ typed < Len(script)
            /\ Calm => held = 0 /\ AllAuxIdle
            /\ q' = Append(q, typed + 1) /\ typed' = typed + 1
            /\ sched' = Append(sched, [a |-> "type", n |-> 0, pos |-> "none"])
+           /\ handoff' = FALSE
            /\ UNCHANGED <<script, held, rq, cq, buf, waiting, reading, gen, mpc, mnext, mrd, mgen, apc, agen, started, line>>
 
 \* answer n held queries in one write, possibly with the next key before or after them
@@ -185,6 +200,7 @@ EnvReply(n, pos) == /\ n \in 1..held
                     /\ held' = held - n
                     /\ typed' = IF pos = "none" THEN typed ELSE typed + 1
                     /\ sched' = Append(sched, [a |-> "reply", n |-> n, pos |-> pos])
+                    /\ handoff' = FALSE
                     /\ UNCHANGED <<script, rq, cq, buf, waiting, reading, gen, mpc, mnext, mrd, mgen, apc, agen, started, line>>
 
 \* a resize or an application Printf starts a redisplay in another goroutine: it writes its query first
@@ -194,6 +210,7 @@ EnvAux == /\ started < NAux /\ mpc # "returned"
           /\ apc' = [apc EXCEPT ![started + 1] = "check"]
           /\ held' = held + 1
           /\ sched' = Append(sched, [a |-> "aux", n |-> 0, pos |-> "none"])
+          /\ handoff' = FALSE
           /\ UNCHANGED <<script, q, typed, rq, cq, buf, waiting, reading, gen, mpc, mnext, mrd, mgen, agen, line>>
 
 Env == Quiescent /\ (EnvType \/ EnvAux \/ \E n \in 1..3 : \E pos \in {"none", "after", "before"} : EnvReply(n, pos))
@@ -206,9 +223,12 @@ Spec == Init /\ [][Next]_vars
 \* keys alone determine, and every auxiliary redisplay has finished
 Expected == [i \in 1..(Len(script) - 1) |-> i]
 EnvDone == typed = Len(script) /\ held = 0 /\ q = <<>>
-Stuck == /\ Quiescent /\ EnvDone
-         /\ \/ mpc # "returned"
+\* every goroutine is blocked, the terminal owes no answer, and yet somebody still waits for one
+\* (or every key has been typed and Readline has not returned)
+Stuck == /\ Quiescent /\ held = 0 /\ q = <<>>
+         /\ \/ mpc \in {"gcp", "wsend", "rksend"}
             \/ \E a \in 1..started : apc[a] # "done"
+            \/ typed = Len(script) /\ mpc # "returned"
 NeverStuck == ~Stuck
 RightLine == mpc = "returned" => line = Expected
 \* keys are never reordered or lost on the way to the commands
